@@ -27,6 +27,7 @@ is_typ = z3.Function("is_exact_type", I, I, B)
 intval = z3.Function("intval", I, I)
 lv_tag = z3.Function("lv_tag", I, I)
 digit = z3.Function("digit", I, I, I)
+is_long_sub = z3.Function("is_int_subclass", I, B)      # Py_TPFLAGS_LONG_SUBCLASS of the object's type
 pow2u = z3.Function("pow2", I, I)          # 2**n for n beyond what the C code computes itself
 generic = z3.Function("generic_result", I, I, I, I, I, B)   # generic_result(opcode, a, b, c, r): r = CPython's own result
 
@@ -44,7 +45,9 @@ def rep(o):
     mag = z3.If(intval(o) >= 0, intval(o), -intval(o))
     B30 = 1 << PYLONG_SHIFT
     exact = z3.And(
-        z3.Implies(nd == 0, mag == 0),
+        # zero: no digits counted, and ob_digit[0] == 0 (zero objects are the small-int singleton or come from
+        # zero-initialised tp_alloc memory) - Cython's unsigned compact path reads ob_digit[0] directly
+        z3.Implies(nd == 0, z3.And(mag == 0, d(0) == 0)),
         z3.Implies(nd == 1, mag == d(0)),
         z3.Implies(nd == 2, mag == d(0) + d(1) * B30),
         z3.Implies(nd == 3, mag == d(0) + d(1) * B30 + d(2) * B30 * B30),
@@ -85,6 +88,8 @@ class CExecPyObj(CExecL3):
     def global_var(self, st, n):
         rd = n["referencedDecl"]
         name = rd.get("name", "")
+        if name.startswith("PyExc_"):
+            return CExecL3.global_var(self, st, n)
         if name.endswith("_Type") or name.startswith("_Py_") or name.startswith("Py"):
             ty = node_type(n)
             return ("const", Ptr(ty, "global:" + name, z3.IntVal(0)))
@@ -120,21 +125,30 @@ class CExecPyObj(CExecL3):
                 return ("const", CV(node_type(n), lv_tag(o)))
             if path == "long_value.ob_digit":
                 self.use_rep(st, o)
-                return ("pydigits", o)
+                return ("mem", Ptr(node_type(n), ("pydigits", o), z3.IntVal(0)))
             raise OutOfSubset("object field %s" % path)
         return CExecL3.member_lval(self, st, n)
 
     def lval(self, st, n):
-        if n["kind"] == "ArraySubscriptExpr":
-            b = n["inner"][0]
-            while b["kind"] in ("ImplicitCastExpr", "ParenExpr"):
-                b = b["inner"][0]
-            if b["kind"] == "MemberExpr":
-                lv = self.lval(st, b)
-                if lv[0] == "pydigits":
-                    idx = self.ev(st, n["inner"][1])
-                    return ("const", CV(node_type(n), digit(lv[1], idx.t)))
         return CExecL3.lval(self, st, n)
+
+    def load(self, st, p, node):
+        if isinstance(p, Ptr) and isinstance(p.obj, tuple) and p.obj[0] == "pydigits":
+            o = p.obj[1]
+            nd = lv_tag(o) / 8
+            # ob_digit has max(ndigits, 1) elements
+            self.oblige(st, "ub", "oob_read.ob_digit", z3.And(p.off >= 0, z3.Or(p.off < nd, p.off == 0)), node)
+            d = digit(o, p.off)
+            st.path.append(z3.And(d >= 0, d < (1 << PYLONG_SHIFT)))     # instance of the representation contract
+            return CV(parse_type("unsigned int"), d)
+        return CExecL3.load(self, st, p, node)
+
+    def read_lval(self, st, lv, node):
+        if lv[0] == "mem" and isinstance(lv[1], Ptr) and isinstance(lv[1].obj, tuple):
+            if lv[1].obj[0] == "pydigits" and node_type(node).kind == "array":
+                return lv[1]
+            return self.load(st, lv[1], node)
+        return CExecL3.read_lval(self, st, lv, node)
 
     # -- C-API stubs -------------------------------------------------------------------------------------------
     def call(self, st, name, argn, n):
@@ -149,6 +163,31 @@ class CExecPyObj(CExecL3):
             if tn == "global:PyFloat_Type":
                 return from_bool(is_float(oid), ty)
             raise OutOfSubset("Py_IS_TYPE against %s" % tn)
+        if name == "Py_TYPE":
+            o = self.oid(self.ev(st, argn[0]))
+            return Ptr(ty, ("typeof", o), z3.IntVal(0))
+        if name == "PyType_HasFeature":
+            t = self.ev(st, argn[0])
+            f = self.ev(st, argn[1])
+            if isinstance(t, Ptr) and isinstance(t.obj, tuple) and t.obj[0] == "typeof" and z3.is_int_value(f.t) \
+                    and f.t.as_long() == (1 << 24):
+                o = t.obj[1]
+                st.path.append(z3.Implies(is_long(o), is_long_sub(o)))
+                return from_bool(is_long_sub(o), ty)
+            raise OutOfSubset("PyType_HasFeature")
+        if name == "_PyLong_CompactValue":
+            o = self.oid(self.ev(st, argn[0]))
+            self.use_rep(st, o)
+            self.assumptions.add("_PyLong_CompactValue(op) == (1 - (lv_tag & 3)) * ob_digit[0]  (CPython 3.12 inline helper)")
+            return CV(ty, (1 - lv_tag(o) % 4) * digit(o, 0))
+        if name in ("PyLong_AsUnsignedLong", "PyLong_AsUnsignedLongLong", "PyLong_AsLongLong"):
+            o = self.oid(self.ev(st, argn[0]))
+            self.oblige(st, "pre", "%s.argument_is_an_int" % name, is_long(o), n)
+            lo, hi = ty.min, ty.max
+            fits = z3.And(intval(o) >= lo, intval(o) <= hi)
+            self.assumptions.add("%s(o) on an int returns its value, or (T)-1 with OverflowError when it does not fit" % name)
+            st.err = z3.If(fits, st.err, z3.IntVal(ERRS["OverflowError"]))
+            return CV(ty, z3.If(fits, intval(o), z3.IntVal(ty.max if not ty.signed else -1)))
         if name in ("_PyLong_IsCompact",):
             o = self.oid(self.ev(st, argn[0]))
             self.use_rep(st, o)
